@@ -2,13 +2,14 @@
   Model of the filters of ladybug/datacollection.py and ladybug/_datacollectionbase.py (property C02)
   on top of the analysis-period model `AP` (Model/AP.lean) and the calendar `Cal`.  No Mathlib.
 
-  Hand-written from the code as it exists, WITH the four repairs of fixes/C02_*.patch applied
+  Hand-written from the code as it exists, WITH the five repairs of fixes/C02_*.patch applied
   (marked "Repaired behaviour" below; without them every filter of a year-wrapping continuous
   collection is wrong, see Props/C02.lean):
     * C02_wrapping_moys_year_length   `eoy_ind = 8760·ts − st_ind` (8784 leap), pinned 8759 / 8783
     * C02_wrapping_moys_start_step    `ind >= st_ind`, pinned `>`
     * C02_wrapping_period_indices     slice bounds counted modulo the year
     * C02_wrapping_subset_clip        `_get_analysis_period_subset` on a wrapping collection
+    * C02_disc_period_order           the discontinuous period filter answers in the period's order
 
   Conventions
     * a date-time is its minute of the year (`DateTime.moy`, a bijection by C08); the leap flag of the
@@ -43,6 +44,9 @@ deriving DecidableEq, Repr
 structure Keyed (κ α : Type) where
   ap : AP
   pairs : List (κ × α)
+  /-- `validated_a_period` (False from the constructors, True on everything derived from a
+      continuous collection, copied by the filters of the hourly and the base class). -/
+  validated : Bool := false
 deriving Repr
 
 /-- `HourlyDiscontinuousCollection`: keys are minutes of the year. -/
@@ -55,8 +59,9 @@ structure Cont (α : Type) where
 deriving Repr
 
 /-- The constructor of the keyed classes (`BaseCollection._check_values`): at least one value. -/
-def Keyed.mk? {κ α : Type} (ap : AP) (pairs : List (κ × α)) : Except FErr (Keyed κ α) :=
-  if pairs.isEmpty then .error .assert else .ok ⟨ap, pairs⟩
+def Keyed.mk? {κ α : Type} (ap : AP) (pairs : List (κ × α)) (validated : Bool := false) :
+    Except FErr (Keyed κ α) :=
+  if pairs.isEmpty then .error .assert else .ok ⟨ap, pairs, validated⟩
 
 /-- The constructor of `HourlyContinuousCollection`: start hour 0, end hour 23,
     `len(values) == len(header.analysis_period)`. -/
@@ -76,7 +81,7 @@ def Cont.moys {α : Type} (c : Cont α) : List Nat := c.ap.moys
 def Cont.pairs {α : Type} (c : Cont α) : List (Nat × α) := c.ap.moys.zip c.vals
 
 /-- `to_discontinuous()`. -/
-def Cont.toDisc {α : Type} (c : Cont α) : Disc α := ⟨c.ap, c.pairs⟩
+def Cont.toDisc {α : Type} (c : Cont α) : Disc α := ⟨c.ap, c.pairs, true⟩
 
 /-! ### The generic search (`_filter_by_moys_slow`, `filter_by_doys`, `filter_by_months`,
     `filter_by_months_per_hour`): `for i, d in enumerate(self.datetimes): if d in request` -/
@@ -93,16 +98,28 @@ def slow {α : Type} (req : List Int) : List (Nat × α) → List (Nat × α)
 
 /-- `HourlyDiscontinuousCollection.filter_by_moys`: same header, filtered pairs. -/
 def Disc.filterByMoys {α : Type} (req : List Int) (c : Disc α) : Except FErr (Disc α) :=
-  Keyed.mk? c.ap (slow req c.pairs)
+  Keyed.mk? c.ap (slow req c.pairs) c.validated
 
 /-- `HourlyDiscontinuousCollection._check_analysis_period`. -/
 def checkAP (src f : AP) : Bool := src.timestep == f.timestep && src.leap == f.leap
 
+/-- `sorted(zip(datetimes, values), key=lambda pair: order[pair[0].moy])` with
+    `order = {moy: i for i, moy in enumerate(period.moys)}`: a stable sort by the position of the
+    minute in the period's enumeration (positions are computed once, as the dictionary does). -/
+def sortByPeriod {α : Type} (f : AP) (ps : List (Nat × α)) : List (Nat × α) :=
+  ((ps.map fun p => (f.moys.idxOf p.1, p)).mergeSort fun x y => decide (x.1 ≤ y.1)).map Prod.snd
+
 /-- `HourlyDiscontinuousCollection.filter_by_analysis_period`: the period's steps through the slow
-    search, then the header period is replaced by the filter period. -/
+    search, the header period is replaced by the filter period, and the pairs are put in the time
+    order of the period.
+
+    Repaired behaviour (fixes/C02_disc_period_order.patch): the pinned code kept the order of the
+    source, so a filter period that wraps the year end returned the January steps before the
+    December steps under a header period that starts in December. -/
 def Disc.filterByAP {α : Type} (f : AP) (c : Disc α) : Except FErr (Disc α) :=
   if checkAP c.ap f = false then .error .assert
-  else (Disc.filterByMoys (f.moys.map Int.ofNat) c).map fun r => { r with ap := f }
+  else (Disc.filterByMoys (f.moys.map Int.ofNat) c).map fun r =>
+    { r with ap := f, pairs := sortByPeriod f r.pairs }
 
 /-- `HourlyDiscontinuousCollection.filter_by_hoys`: `int(round(hour * 60))`; the argument holds the
     products `hour * 60` as exact numbers (the driver forms the IEEE products). -/
@@ -143,7 +160,7 @@ def Cont.filterByMoys {α : Type} (req : List Int) (c : Cont α) : Except FErr (
   let idx := req.map (moyIndex c.ap)
   let vs ← pick c.vals idx
   let ds ← pick c.ap.moys idx
-  Keyed.mk? c.ap (ds.zip vs)
+  Keyed.mk? c.ap (ds.zip vs) true
 
 /-- `HourlyContinuousCollection.filter_by_hoys`: hours not among `header.analysis_period.hoys` are
     dropped, the rest goes through `int(round(hour * 60))`.  Each requested hour is given as the pair
@@ -235,15 +252,15 @@ def inRange (lo hi : Option Int) (a : Int) : Bool :=
 /-- `filter_by_pattern` of the keyed classes (the result keeps class and header). -/
 def Keyed.filterByPattern {κ α : Type} (pat : List Bool) (c : Keyed κ α) : Except FErr (Keyed κ α) := do
   let ps ← patternFilter pat c.pairs
-  Keyed.mk? c.ap ps
+  Keyed.mk? c.ap ps c.validated
 
 /-- `filter_by_conditional_statement` of the keyed classes. -/
 def Keyed.filterByPred {κ α : Type} (p : α → Bool) (c : Keyed κ α) : Except FErr (Keyed κ α) :=
-  Keyed.mk? c.ap (predFilter p c.pairs)
+  Keyed.mk? c.ap (predFilter p c.pairs) c.validated
 
 /-- `filter_by_range` of the keyed classes. -/
 def Keyed.filterByRange {κ : Type} (lo hi : Option Int) (c : Keyed κ Int) : Except FErr (Keyed κ Int) :=
-  Keyed.mk? c.ap (predFilter (inRange lo hi) c.pairs)
+  Keyed.mk? c.ap (predFilter (inRange lo hi) c.pairs) c.validated
 
 /-- The three value filters of the continuous class: same functions on its pairs, the result is a
     discontinuous collection. -/
@@ -258,7 +275,7 @@ def Cont.filterByRange (lo hi : Option Int) (c : Cont Int) : Except FErr (Disc I
 
 /-- `filter_by_doys` / `filter_by_months` / `filter_by_months_per_hour`. -/
 def Keyed.filterByKeys {κ α : Type} [DecidableEq κ] (req : List κ) (c : Keyed κ α) : Except FErr (Keyed κ α) :=
-  Keyed.mk? c.ap (keyFilter req c.pairs)
+  Keyed.mk? c.ap (keyFilter req c.pairs) false
 
 /-- `DailyCollection.filter_by_analysis_period` (checks the leap flag only). -/
 def dailyFilterByAP {α : Type} (f : AP) (c : Keyed Nat α) : Except FErr (Keyed Nat α) :=
